@@ -18,7 +18,7 @@ from ..alg import AlgError, Context, Rat, _pdiv_exact
 from ..extract import Extractor, Closure, Opaque, PathRaises, ReturnValue, _dotted
 from ..model import Program, walk_own
 from ..report import AnalysisError
-from ..model import key_in, canon as K, inline_temporaries
+from ..model import key_in, canon as K, inline_temporaries, as_less
 
 EQ = "hypnotoad/core/equilibrium.py"
 POLY = "hypnotoad/utils/polygons.py"
@@ -218,7 +218,8 @@ def r1_r2_r3(prog, rep):
     for arm, dom, other in ((top.body, "R", "Z"), (top.orelse, "Z", "R")):
         # swap iff the dominant coordinate decreases
         sw = [s for s in arm if isinstance(s, ast.If) and any(isinstance(n, ast.Call) and _dotted(n.func) == "swap_points" for n in ast.walk(s))]
-        ok = len(sw) == 1 and " ".join(mod.text(sw[0].test).split()) == "l2start.%s > l2end.%s" % (dom, dom)
+        less = as_less(sw[0].test) if len(sw) == 1 else None
+        ok = bool(less) and less[1] and (mod.code(less[0]), mod.code(less[2])) == ("l2end.%s" % dom, "l2start.%s" % dom)
         rep.ob("R2", "segment %s-dominant: end points swapped iff l2start.%s > l2end.%s" % (dom, dom, dom), ok, f.site(sw[0] if sw else top), "", key="swap/" + dom)
     rep.floor("R2.range-tests", n_tests, 4)
     # wall edges sorted by their dominant coordinate, classes complementary
@@ -230,9 +231,11 @@ def r1_r2_r3(prog, rep):
     for n in walk_own(f.node):
         if isinstance(n, ast.Assign) and isinstance(n.targets[0], ast.Name) and n.targets[0].id in ("inds_a", "inds_b") and isinstance(n.value, ast.Subscript):
             for c in ast.walk(n.value):
-                if isinstance(c, ast.Compare) and "R1array" in mod.text(c):
-                    conds.append((n.targets[0].id, type(c.ops[0]).__name__, " ".join(mod.text(c.left).split()), " ".join(mod.text(c.comparators[0]).split())))
-    ok = len(conds) == 2 and conds[0][2:] == conds[1][2:] and {conds[0][1], conds[1][1]} == {"Gt", "LtE"}
+                if isinstance(c, ast.Compare) and "R1array" in mod.text(c) and as_less(c):
+                    small, strict, big = as_less(c)
+                    conds.append((n.targets[0].id, "strict" if strict else "non-strict", mod.code(small), mod.code(big)))
+    # complementary: one class is `x < y`, the other `y <= x` on the same two quantities
+    ok = len(conds) == 2 and {conds[0][1], conds[1][1]} == {"strict", "non-strict"} and conds[0][2:] == conds[1][2:][::-1]
     rep.ob("R2", "edge slope classes are complementary (> versus <= on the same quantities)", ok, f.site(), str(conds), key="classes/complementary")
 
 
@@ -389,9 +392,10 @@ def area_rules(prog, rep, R="R5"):
     rep.ob(R, "area returns half the accumulated sum", ok, fa.site(), "", key="area/half")
     ret = [n for n in ast.walk(fc.node) if isinstance(n, ast.Return)]
     ok = False
-    if ret and isinstance(ret[0].value, ast.Compare) and len(ret[0].value.ops) == 1 and isinstance(ret[0].value.ops[0], ast.Gt):
-        c = ret[0].value
-        ok = mod.code(inline_temporaries(fc.node, c.left, inline_calls=True)) == "area(polygon)" and isinstance(c.comparators[0], ast.Constant) and c.comparators[0].value == 0
+    less = as_less(ret[0].value) if ret else None
+    if less and less[1]:
+        small, _strict, big = less
+        ok = mod.code(inline_temporaries(fc.node, big, inline_calls=True)) == "area(polygon)" and isinstance(small, ast.Constant) and small.value == 0 and not isinstance(small.value, bool)
     rep.ob(R, "clockwise(polygon) == (area(polygon) > 0)", ok, fc.site(), "", key="clockwise/def")
 
 
@@ -521,10 +525,18 @@ def r7(prog, rep):
     ok3 = False
     if inner:
         i0 = inner[0]
-        ok = " ".join(mod.text(i0.test).split()) == "intersects.shape[0] > 2" and any(isinstance(s, ast.Raise) for s in i0.body)
+        def count_above(test, k):
+            """the test says: more than k crossings"""
+            less = as_less(test)
+            if not less:
+                return False
+            small, strict, big = less
+            return mod.code(big) in (K("intersects.shape[0]"), K("len(intersects)")) and isinstance(small, ast.Constant) and type(small.value) is int \
+                and small.value == (k if strict else k + 1)
+        ok = count_above(i0.test, 2) and any(isinstance(s, ast.Raise) for s in i0.body)
         if len(i0.orelse) == 1 and isinstance(i0.orelse[0], ast.If):
             i1 = i0.orelse[0]
-            ok2 = " ".join(mod.text(i1.test).split()) == "intersects.shape[0] > 1"
+            ok2 = count_above(i1.test, 1)
             far = [s for s in i1.body if isinstance(s, ast.If)]
             if far:
                 t = " ".join(mod.text(far[0].test).split())
